@@ -519,6 +519,11 @@ static int send_upgrade_response(struct http_connection *connection)
 		return -1;
 	}
 
+	/* RFC 6455, 4.2.1: a handshake without key or version header is not a websocket upgrade. */
+	if (!s->key_received || !s->version_received) {
+		return -1;
+	}
+
 	uint8_t accept_value[28];
 	struct SHA1Context context;
 	uint8_t sha1_buffer[SHA1HashSize];
@@ -869,10 +874,16 @@ int websocket_upgrade_on_header_value(http_parser *p, const char *at, size_t len
 	switch (s->current_header_field) {
 	case HEADER_SEC_WEBSOCKET_KEY:
 		ret = save_websocket_key(s->sec_web_socket_key, at, length);
+		if (ret == 0) {
+			s->key_received = true;
+		}
 		break;
 
 	case HEADER_SEC_WEBSOCKET_VERSION:
 		ret = check_websocket_version(at, length);
+		if (ret == 0) {
+			s->version_received = true;
+		}
 		break;
 
 	case HEADER_SEC_WEBSOCKET_PROTOCOL:
